@@ -41,6 +41,7 @@ type Rule struct {
 	Sub    string `json:"sub,omitempty"`    // "" | "advisory" | "release" (FinishJoin / FinishLeave)
 	Target uint64 `json:"target,omitempty"` // 0: any callee
 	Nth    int    `json:"nth"`              // 0: every matching call, k > 0: only the k-th matching call
+	From   int    `json:"from,omitempty"`   // k > 0 (with Nth = 0): every matching call from the k-th on
 	Mode   string `json:"mode"`             // FailBefore | LoseResponse
 	Err    string `json:"err,omitempty"`    // "deadline" (default): the caller's deadline expires; "transport": the connection breaks
 
@@ -158,7 +159,7 @@ func (f *Fabric) decide(ctx context.Context, method string, req any) (srv *implc
 			continue
 		}
 		r.seen++
-		if r.Nth == 0 || r.Nth == r.seen {
+		if (r.Nth == 0 && r.seen >= r.From) || r.Nth == r.seen {
 			r.fired++
 			rule = r
 			break
